@@ -182,3 +182,28 @@ theorem eval_eqAsNotNe (cfg : Cfg) (fuel : Nat) (sp : Span) (ty : Ty) (op : Infi
             | some x => cases x <;> rfl
 
 end HmsProofs.Lemmas.Fuzz
+
+/-! ## Purity is needed for the reordering rules -/
+
+namespace HmsProofs.Lemmas.Fuzz
+open Hms Hms.Core Hms.Fuzz
+
+def spZ : Span := ⟨0, 0, 0, 0⟩
+
+/-- `{ x = 5; x }`: an operand with an effect on the variable `x`. -/
+def effectfulOperand : Expr :=
+  .blockE (.mk spZ .int [.exprS spZ (.assign spZ none (identE spZ .int "x") (.int spZ 5))]
+    (some (identE spZ .int "x")))
+
+/-- `x` -/
+def readX : Expr := identE spZ .int "x"
+
+/-- A state in which `x = 1`. -/
+def stateX1 : St := { scopes := [[("x", .int 1)]] }
+
+def intResult (r : Except Ctl Val × St) : Option Int :=
+  match r.1 with
+  | .ok (.int v) => some v.toInt
+  | _ => none
+
+end HmsProofs.Lemmas.Fuzz
